@@ -79,7 +79,9 @@ class TSI(Indicator):
             }
         )
 
-        if self.reading(f"{self.name}_abs_second"):
+        if self.reading(f"{self.name}_abs_second") is not None:
+            if self.reading(f"{self.name}_abs_second") == 0:
+                return 0.0
             return 100 * (
                 self.reading(f"{self.name}_second") / self.reading(f"{self.name}_abs_second")
             )
